@@ -5,12 +5,12 @@ package main
 import (
 	"bytes"
 	"encoding/json"
-	"os"
-	"strings"
 	"fmt"
 	"io"
 	"math"
+	"os"
 	"strconv"
+	"strings"
 	"time"
 
 	"github.com/atlassian/escalator/pkg/cloudprovider"
@@ -79,7 +79,7 @@ func runArithFile(path string, w io.Writer, stats map[string]int) {
 		}
 		var c struct {
 			CPUReq, MemReq, CPUCap, MemCap, N, CachedCPU, CachedMem int64
-			T                                                      int
+			T                                                       int
 		}
 		if err := json.Unmarshal([]byte(line), &c); err != nil {
 			panic(err)
